@@ -14,4 +14,4 @@ cargo build --target-dir ../target/rlibdep 2>&1 | tail -1
 # warm the Miri build used by the quick tier of C09 (interpreter sysroot + harness under Miri)
 cd ..
 echo "[]" > ../work/empty_cases.json
-MIRIFLAGS="-Zmiri-disable-isolation" cargo +nightly miri run --bin c09 --target-dir target/miri -- --replay-many ../work/empty_cases.json 2>&1 | tail -1
+MIRIFLAGS="-Zmiri-disable-isolation -Zmiri-tree-borrows" cargo +nightly miri run --bin c09 --target-dir target/miri -- --replay-many ../work/empty_cases.json 2>&1 | tail -1
